@@ -1504,6 +1504,7 @@ func (it *Interp) opReset(op *Op) {
 	it.M.Ents = nil
 	it.pre = nil
 	it.everRel = nil
+	it.M.Open = nil // all queries are finished (the world was unlocked); their handles refer to the old state
 	for _, f := range it.M.Filters {
 		f.Registered = false
 		for _, r := range f.Rels {
